@@ -100,7 +100,13 @@ func drawOp(c *Ctx, l *core.Lane, failing bool) *opCase {
 	// recorded before hash calls existed keep their meaning)
 	if x := c.L(l.Name + ":h"); x.Chance(1, 7) {
 		hc := drawHashCall(c, x)
-		o.e = harness.HashEntry(hc.fn, hc.img)
+		fn := hc.fn
+		if hc.img != nil && x.Chance(1, 4) {
+			// the size-agnostic hashes of the package on the same image (differential properties
+			// only; they have no reference model here)
+			fn = harness.HAHash + x.Intn(2)
+		}
+		o.e = harness.HashEntry(fn, hc.img)
 		o.name = "image:" + hc.desc
 		c.Inc("input-class:hash")
 		return o
